@@ -18,11 +18,12 @@ git -C /repo worktree remove --force $wt
 echo "SEED $name: demo-on-clean-exit=$clean (want 0) demo-with-patch-exit=$patched (want !=0) repo-suite-with-patch-exit=$suite (want 0)"
 if [ $clean -ne 0 ] || [ $patched -eq 0 ] || [ $suite -ne 0 ]; then echo "SEED $name: NOT CONFIRMED"; exit 1; fi
 mkdir -p /verif/seeded/$name && cp $src/patch.diff $demo $src/meta.json /verif/seeded/$name/
-# run my check
+# run my check against a scratch worktree carrying the patch (never /repo itself while other work is going on)
 cd /verif
-git -C /repo apply $src/patch.diff || { echo "cannot apply to /repo"; exit 2; }
-if [ "$prop" = C12 ]; then ./run.sh check $prop quick > /tmp/val-$name.check.log 2>&1; else ./run.sh check $prop quick > /tmp/val-$name.check.log 2>&1; fi
+git -C /repo worktree add -q --detach $wt HEAD && git -C $wt apply $src/patch.diff || { echo "cannot apply"; exit 2; }
+REPO=$wt VERIF_HANG_S=15 timeout 900 ./run.sh check $prop quick > /tmp/val-$name.check.log 2>&1
 c=$?
-git -C /repo checkout -- .
+git -C /repo worktree remove --force $wt
+./run.sh build > /dev/null 2>&1
 nv=$(grep -c '^VIOLATION' /tmp/val-$name.check.log)
 echo "SEED $name: check $prop exit=$c violations=$nv $(grep -m1 'sig=' /tmp/val-$name.check.log | cut -c1-200)"
